@@ -345,3 +345,120 @@ Proof.
   split; [exact Hbc|]. split; [exact Hlog1|]. split; [exact HI2|]. split; [congruence|].
   split; [congruence|]. split; [exact Hmp|]. split; [exact HI3|exact H].
 Qed.
+
+(* ================================================================== *)
+(* 8.6 one follower's pair invariant through propose + persist         *)
+(* ================================================================== *)
+Section ProposeView.
+
+Variables (LL : LL) (T l f lo : N) (rw rwl : bool) (l0 : raft_log).
+Hypothesis HLL : LeaderLog LL.
+Hypothesis Hlo : ll_base LL <= lo.
+Hypothesis HloT : exists t, ll_term LL lo = SOk t.
+Hypothesis HT : T <> 0.
+Hypothesis Hlf : l <> f.
+
+Lemma propose_PairInv Hb a L F pr e lg1 L1 lg2 L2 :
+  PairInv LL T l f lo rw l0 Hb a L F -> get_pr L f = Some pr -> matched pr = ll_last LL ->
+  last_index (r_log F) = ll_last LL ->
+  e_index e = ll_last LL + 1 -> e_term e = T -> ll_last LL + 1 < u64_max ->
+  RepInv rwl lg1 -> abs lg1 = ll_append LL [e] ->
+  bcast_append (L <| r_log := lg1 |>) = Ok L1 -> r_log L1 = lg1 ->
+  RepInv rwl lg2 -> abs lg2 = ll_append LL [e] ->
+  maybe_persist lg2 (ll_last LL + 1) T = Ok (set_persisted lg2 (ll_last LL + 1), true) ->
+  RepInv rwl (set_persisted lg2 (ll_last LL + 1)) ->
+  on_persist_entries (L1 <| r_log := lg2 |>) (ll_last LL + 1) T = Ok L2 ->
+  PairInv (ll_append LL [e]) T l f lo rw (set_persisted lg2 (ll_last LL + 1)) Hb (ll_last LL) L2 F /\
+  (exists pr2, get_pr L2 f = Some pr2 /\ matched pr2 = ll_last LL) /\
+  conf_of L2 = conf_of L.
+Proof.
+  intros [HC (pr0 & Hg0 & HP) HF HFq Hq HH Htm] Hg Hm HlF He HeT Hbd HI1 Habs1 Hbc Hlog1 HI2 Habs2 Hmp HI3 Hop.
+  rewrite Hg in Hg0. inversion Hg0; subst pr0; clear Hg0.
+  set (LL1 := ll_append LL [e]) in *. set (last1 := ll_last LL + 1) in *.
+  set (lg3 := set_persisted lg2 last1) in *.
+  assert (HLL1 : LeaderLog LL1) by (eapply LeaderLog_ext; eassumption).
+  assert (Hlo1 : ll_base LL1 <= lo) by exact Hlo.
+  assert (HloT1 : exists t, ll_term LL1 lo = SOk t).
+  { destruct HloT as [t Ht]. exists t. unfold LL1. rewrite (ll_append1_term_low LL e lo He); [exact Ht|].
+    pose proof (pi_lo _ _ _ _ HP). lia. }
+  assert (Ha : a = ll_last LL).
+  { pose proof (pi_b _ _ _ _ HP). pose proof (ag_lastL _ _ _ _ (fi_agree _ _ _ _ _ _ _ HF)). lia. }
+  subst a.
+  assert (HP1 : PrInv LL1 lo (ll_last LL) pr) by (eapply PrInv_ext; eassumption).
+  pose proof HC as [C1 C2 C3 C4 C5 C6 C7 C8].
+  (* after the append, before the broadcast *)
+  set (r2 := L <| r_log := lg1 |>) in *.
+  assert (HC2 : LCore T l lg1 r2) by (constructor; cbn; auto; apply same_ents_refl).
+  destruct (bcast_append_lstep LL1 T l f lo HLL1 Hlo1 HloT1 HT Hlf rwl lg1 HI1 Habs1 (ll_last LL) r2 pr L1
+              HC2 Hg HP1 Hbc) as (p1 & B1 & (new1 & B2 & B2f) & B3 & B4 & B5).
+  destruct (lfr_fields _ _ B1) as [Bt Be].
+  pose proof (lfr_LCore _ _ _ _ _ B1 HC2) as HCL1. pose proof HCL1 as [D1 D2 D3 D4 D5 D6 D7 D8].
+  (* the persistence report *)
+  unfold on_persist_entries in Hop.
+  change (r_log (L1 <| r_log := lg2 |>)) with lg2 in Hop. fold last1 in Hop. rewrite Hmp in Hop.
+  cbn [bind] in Hop. fold lg3 in Hop.
+  set (r3 := L1 <| r_log := lg2 |> <| r_log := lg3 |>) in *.
+  assert (HC3 : LCore T l lg3 r3) by (constructor; cbn; auto; apply same_ents_refl).
+  assert (Habs3 : abs lg3 = LL1) by (unfold lg3; rewrite <- Habs2; apply abs_ext; reflexivity).
+  assert (Hg3 : get_pr r3 f = Some p1) by exact B3.
+  assert (Hl3 : is_leader r3 = true) by (unfold is_leader; change (r_state r3) with (r_state L1); rewrite D1; reflexivity).
+  rewrite Hl3 in Hop. cbn [andb] in Hop.
+  assert (Hid3 : r_id r3 = l) by exact D3. rewrite Hid3 in Hop.
+  assert (S3 : exists p2, lstep LL1 T l f lo (ll_last LL) r3 p1 L2 p2).
+  { destruct (get_pr r3 l) as [ps1|] eqn:Hgs.
+    2:{ assert (L2 = r3) by congruence. subst L2. exists p1. apply lstep_refl'; assumption. }
+    destruct (maybe_update ps1 last1) as [ps2 u].
+    eapply (lstep_trans_ex LL1 T l f lo lg3 (ll_last LL) r3 p1 (put_pr r3 l ps2) p1);
+      [exact HC3|apply (put_lstep LL1 T l f lo (ll_last LL) r3 p1 l ps2 Hg3 B4 Hlf)|].
+    intros HC4 Hg4 HP4. destruct u.
+    - inv_bind Hop. destruct x as [r5 c5].
+      eapply (lstep_trans_ex LL1 T l f lo lg3 (ll_last LL) _ p1 r5 p1); [exact HC4| |].
+      + eapply maybe_commit_lstep; eassumption.
+      + intros HC5 Hg5 HP5. destruct (c5 && should_bcast_commit r5).
+        * eapply bcast_append_lstep; eassumption.
+        * assert (L2 = r5) by congruence. subst L2. exists p1. apply lstep_refl'; assumption.
+    - match goal with Ho : Ok _ = Ok L2 |- _ => inversion Ho; subst L2 end.
+      exists p1. apply lstep_refl'; assumption. }
+  destruct S3 as (p2 & E1 & (new2 & E2 & E2f) & E3 & E4 & E5).
+  destruct (lfr_fields _ _ E1) as [Et Ee].
+  pose proof (lfr_LCore _ _ _ _ _ E1 HC3) as HCL2.
+  assert (Hmsgs : r_msgs L2 = r_msgs L ++ new1 ++ new2).
+  { rewrite E2. change (r_msgs r3) with (r_msgs L1). rewrite B2. change (r_msgs r2) with (r_msgs L).
+    rewrite <- app_assoc. reflexivity. }
+  destruct (pkey_inv _ _ B5) as (K1 & K2 & _). destruct (pkey_inv _ _ E5) as (K3 & K4 & _).
+  split; [|split].
+  - constructor.
+    + exact HCL2.
+    + exists p2. auto.
+    + destruct HF as [F1 F2 F3 F4 F5 F6 F7]. constructor; auto.
+      * eapply Agree_ext; try eassumption; [reflexivity|].
+        rewrite <- (abs_last rw _ F4). exact HlF.
+    + exact HFq.
+    + rewrite Hmsgs. unfold to_peer. rewrite filter_app. apply Forall_app. split.
+      * eapply Forall_impl; [|exact Hq]. intros x. eapply qmsg_ok_ext; eassumption.
+      * apply Forall_to_peer. apply Forall_app. split.
+        -- eapply Forall_impl; [|exact B2f]. intros x Hx Hto. left. apply Hx. exact Hto.
+        -- eapply Forall_impl; [|exact E2f]. intros x Hx Hto. left. apply Hx. exact Hto.
+    + rewrite Et. change (r_heartbeat_timeout r3) with (r_heartbeat_timeout L1). rewrite Bt. exact HH.
+    + destruct Htm as [Htm|[Htm1 Htm2]]; [left; exact Htm|right]. split; [exact Htm1|].
+      intros Hempty. rewrite Ee. change (r_heartbeat_elapsed r3) with (r_heartbeat_elapsed L1). rewrite Be.
+      apply Htm2. rewrite Hmsgs in Hempty. unfold to_peer in *. rewrite filter_app in Hempty.
+      apply app_eq_nil in Hempty. apply Hempty.
+  - exists p2. split; [exact E3|]. congruence.
+  - destruct E1 as [E1 _]. destruct B1 as [B1 _]. unfold conf_of.
+    (* the configuration is not touched: only t_progress of the tracker changes *)
+    assert (Hc1 : t_conf (r_prs L1) = t_conf (r_prs L)).
+    { apply bcast_append_fr in Hbc. destruct Hbc as (_ & _ & _ & Hc & _). exact Hc. }
+    assert (Hc2 : t_conf (r_prs L2) = t_conf (r_prs L1)).
+    { clear - Hop Hl3. destruct (get_pr r3 l) as [ps1|]; [|assert (L2 = r3) by congruence; subst L2; reflexivity].
+      destruct (maybe_update ps1 last1) as [ps2 u]. destruct u.
+      - inv_bind Hop. destruct x as [r5 c5]. apply maybe_commit_fr in Hx. destruct Hx as (_ & _ & _ & Hc & _).
+        destruct (c5 && should_bcast_commit r5).
+        + apply bcast_append_fr in Hop. destruct Hop as (_ & _ & _ & Hc' & _). unfold conf_of in *.
+          rewrite Hc', Hc. reflexivity.
+        + assert (L2 = r5) by congruence. subst L2. exact Hc.
+      - inversion Hop; subst L2. reflexivity. }
+    congruence.
+Qed.
+
+End ProposeView.
